@@ -16,6 +16,11 @@ pub mod verif_std {
     pub assume_specification<T: std::cmp::Ord + std::marker::Destruct> [std::cmp::max] (a: T, b: T) -> (r: T)
         ensures r == a || r == b;
 
+    pub assume_specification<T, E, U, F: FnOnce(T) -> Result<U, E>> [std::result::Result::<T, E>::and_then] (r: Result<T, E>, f: F) -> (o: Result<U, E>)
+        requires r is Ok ==> call_requires(f, (r->Ok_0,)),
+        ensures r is Err ==> o is Err && o->Err_0 == r->Err_0,
+                r is Ok ==> call_ensures(f, (r->Ok_0,), o);
+
     pub assume_specification<'a, T: Copy> [std::option::Option::<&T>::copied] (o: Option<&'a T>) -> (r: Option<T>)
         ensures r == (match o { Some(x) => Some(*x), None => None::<T> });
 
